@@ -51,6 +51,8 @@ type runner struct {
 	lastOut *Outcome
 	inappAt map[int]int // per client: inapplicable broadcasts already reported
 	strict  bool
+	inBlock bool
+	desync  bool // the model can no longer follow the server (non-serializable block)
 }
 
 func (r *runner) violate(v Violation) {
@@ -62,7 +64,8 @@ func (r *runner) v(prop, rule, format string, a ...any) {
 	r.violate(Violation{Prop: prop, Rule: rule, Detail: fmt.Sprintf(format, a...)})
 }
 
-func (r *runner) failed() bool { return len(r.res.Violations) > 0 || r.w.sim.Failure != "" }
+func (r *runner) stop() bool   { return len(r.res.Violations) > 0 || r.w.sim.Failure != "" }
+func (r *runner) failed() bool { return r.stop() || r.desync }
 
 // RunScenario executes one scenario inside its own synctest bubble.
 func RunScenario(t *testing.T, sc *Scenario) *Result {
@@ -270,9 +273,6 @@ func (r *runner) runSeq(st *Step) {
 	r.quiesce()
 	got := c.NonClock(c.Since())
 	out := p.Finish(r.m, got)
-	if out.Accepted || st.Op == "comp_list" {
-		c.View.applyOwn(p.Req, got, p.RID)
-	}
 	r.afterRequest(st, c, out)
 }
 
@@ -564,14 +564,19 @@ func (r *runner) serverCheck(kind string) bool {
 func (r *runner) checkServerOnly() { r.serverCheck("") }
 
 func (r *runner) checkState(out *Outcome) {
-	if r.failed() {
+	if r.stop() {
 		return
 	}
 	kind := ""
 	if out != nil {
 		kind = strings.SplitN(out.Kind, "/", 2)[0]
 	}
-	if !r.serverCheck(kind) {
+	if !r.desync && !r.serverCheck(kind) {
+		return
+	}
+	if r.desync {
+		// only what does not need the model: views against the server's own state
+		r.checkViews()
 		return
 	}
 	// 2. registry, gauges, frame workers
@@ -631,7 +636,47 @@ func diffMaps[K comparable, V comparable](got, want map[K]V) string {
 	return strings.Join(out, "; ")
 }
 
+// serverSnapshot reads every live session through the repository's accessors.
+func (r *runner) serverSnapshot() map[string]*MSession {
+	snap := map[string]*MSession{}
+	r.w.sim.Inspect(func() {
+		for _, id := range sortedSessionIDs(r.m.Live) {
+			ss, found := r.w.Sessions.GetByGlobalID(id)
+			if !found {
+				continue
+			}
+			t := newMSession(id, ss.SessionUUID)
+			for _, p := range ss.GetParticipants() {
+				t.Members[p.ID] = -1
+			}
+			for _, e := range ss.Entities() {
+				po := e.Pose()
+				t.Entities[e.ID] = &MEntity{ID: e.ID, Owner: e.ParticipantID, Persist: e.Persist, Flag: int32(e.Flag), Pose: poseArr(po.PX, po.PY, po.PZ, po.RX, po.RY, po.RZ, po.RW)}
+			}
+			for _, c := range ss.GetEntityComponents().ListAll() {
+				t.Components[CKey{c.GetEntityComponentTypeId(), c.GetEntityId()}] = string(c.GetData())
+			}
+			if st, ok := ss.ModuleState("vikja"); ok {
+				for _, a := range st.(*vikja.State).EntityActions() {
+					if t.Actions[a.GetEntityId()] == nil {
+						t.Actions[a.GetEntityId()] = map[string]VAction{}
+					}
+					t.Actions[a.GetEntityId()][a.GetName()] = vaction(a)
+				}
+			}
+			if st, ok := ss.ModuleState("odal"); ok {
+				for _, a := range st.(*odal.State).AssetInstances() {
+					t.Assets[a.GetEntityId()] = vasset(a)
+				}
+			}
+			snap[ss.SessionUUID] = t
+		}
+	})
+	return snap
+}
+
 func (r *runner) checkViews() {
+	snap := r.serverSnapshot()
 	for _, ci := range r.sortedClients() {
 		c := r.clients[ci]
 		mc := r.m.conn(ci)
@@ -642,7 +687,8 @@ func (r *runner) checkViews() {
 			if ia.Type != 0 && mc.Session != nil && mc.Session.Stale[mc.PID][ia.Type] {
 				stale = true
 			}
-			if !stale && (r.w.cfg.Policy == "seq" || true) {
+			// the statement makes this claim for sequential histories only
+			if !stale && !r.inBlock {
 				r.v("C01", "inapplicable-broadcast", "%s received a broadcast it cannot apply: %s (%s)", c.Label, ia.Kind, ia.Detail)
 			}
 		}
@@ -650,7 +696,11 @@ func (r *runner) checkViews() {
 		if mc.Gone || c.Ended() || mc.Session == nil {
 			continue
 		}
-		s := mc.Session
+		ms := mc.Session
+		s := snap[ms.UUID] // the server's own state is the truth a view is compared with
+		if s == nil {
+			s = ms
+		}
 		if !v.Joined || v.UUID != s.UUID {
 			r.v("C01", "view-session", "%s believes it is in session %q (%s), the model says %s", c.Label, v.SessionID, v.UUID, s.UUID)
 			continue
@@ -681,8 +731,8 @@ func (r *runner) checkViews() {
 		}
 		// components: for every type the participant subscribes to (and whose view C13 did not
 		// force to be incomplete)
-		for typ, subs := range s.Subs {
-			if !subs[mc.PID] || s.Stale[mc.PID][typ] {
+		for typ, subs := range ms.Subs {
+			if !subs[mc.PID] || ms.Stale[mc.PID][typ] {
 				continue
 			}
 			gc, wc := map[CKey]string{}, map[CKey]string{}
@@ -754,7 +804,7 @@ func (r *runner) finish() {
 	if r.w.sim.Failure != "" {
 		return
 	}
-	if !r.failed() && !r.sc.NoFinalClose {
+	if !r.stop() && !r.sc.NoFinalClose {
 		for _, ci := range r.sortedClients() {
 			c := r.clients[ci]
 			if c.Ended() || c.sentFIN {
